@@ -39,6 +39,18 @@ func cellsTerm(cs []vaxis.Cell, f func(vaxis.Cell) string) string {
 	return hx.List(s)
 }
 
+// optCells prints None when cs equals ref (graphemes and styles, as Go values)
+func optCells(cs, ref []vaxis.Cell) string {
+	same := len(cs) == len(ref)
+	for i := 0; same && i < len(cs); i++ {
+		same = cs[i].Grapheme == ref[i].Grapheme && cs[i].Style == ref[i].Style
+	}
+	if same {
+		return hx.None
+	}
+	return hx.Some(cellsTerm(cs, pcellTerm))
+}
+
 func paramsTerm(ps [][]int) string {
 	s := make([]string, len(ps))
 	for i, p := range ps {
@@ -249,8 +261,15 @@ func (h *harness) addCodec(cells []vaxis.Cell, tags ...string) {
 		h.direct = append(h.direct, hx.DirectViolation{Class: "codec-panic", Case: js, What: "a codec function panicked: " + msg})
 		return
 	}
-	obs := fmt.Sprintf("(mkCodecObs %s %s %s %s %s %s %s)", hx.Runes(encE), hx.Runes(encS),
-		cellsTerm(parsed, pcellTerm), cellsTerm(styled, pcellTerm), cellsTerm(termCells, pcellTerm),
+	encSTerm := hx.None
+	if encS != encE {
+		encSTerm = hx.Some(hx.Runes(encS))
+	}
+	if links {
+		styled = parsed // not observed (the model ignores it)
+	}
+	obs := fmt.Sprintf("(mkCodecW %s %s %s %s %s %s %s)", hx.Runes(encE), encSTerm,
+		cellsTerm(parsed, pcellTerm), optCells(styled, parsed), optCells(termCells, parsed),
 		penTerm(finParse), penTerm(finTerm))
 	if !wf {
 		tags = append(tags, "not-wellformed")
@@ -319,8 +338,8 @@ func (h *harness) addRender(rgb, smulx bool, cells []vaxis.Cell, tags ...string)
 		h.direct = append(h.direct, hx.DirectViolation{Class: "render-consumer-panic", Case: js, What: "a consumer panicked on render output: " + msg})
 		return
 	}
-	obs := fmt.Sprintf("(mkRenderObs %s %s %s %s %s)", hx.Runes(out), cellsTerm(parsed, pcellTerm),
-		cellsTerm(styled, pcellTerm), cellsTerm(termCells, pcellTerm), penTerm(finTerm))
+	obs := fmt.Sprintf("(mkRenderW %s %s %s %s %s)", hx.Runes(out), cellsTerm(parsed, pcellTerm),
+		optCells(styled, parsed), optCells(termCells, parsed), penTerm(finTerm))
 	tags = append(tags, fmt.Sprintf("rgb=%v,smulx=%v", rgb, smulx))
 	h.render.Add(hx.Tuple(hx.Tuple(hx.Bool(rgb), hx.Bool(smulx)), cellsTerm(cells, pcellTerm), obs), js, wf, tags...)
 }
@@ -403,7 +422,7 @@ func main() {
 	// The other fields cycle through all colour classes and underline styles.
 	reps := 1
 	if thorough {
-		reps = 4
+		reps = 3
 	}
 	pairCount, rowNo := 0, 0
 	for rep := 0; rep < reps; rep++ {
@@ -418,9 +437,12 @@ func main() {
 				}
 				cells := make([]vaxis.Cell, rowLen)
 				for i, m := range row {
-					st := g.style()
-					if rep == 0 && i%2 == 1 { // half of the transitions change the attributes only
-						st = cells[i-1].Style
+					var st vaxis.Style // first pass: only the attributes change (short case terms)
+					if rep > 0 {
+						st = g.style()
+						if i%2 == 1 {
+							st = cells[i-1].Style
+						}
 					}
 					st.Attribute = m
 					cells[i] = cellOf(g.grapheme(true), st)
